@@ -482,6 +482,10 @@ def _binds_of(nodes, b) -> tuple[list[dict], object, object]:
                 binds.append({"n": names[0], "k": "lit", "v": int(_text(vn, b)), "m": ""})
             elif vn.type == "variable_expression":
                 binds.append({"n": names[0], "k": "ref", "v": 0, "m": _text(vn, b)})
+            elif vn.type == "attrset_expression":
+                bs2 = next((x for x in vn.children if x.type == "binding_set"), None)
+                sub, _, _ = _binds_of(bs2.children if bs2 else [], b)
+                binds.append({"n": names[0], "k": "setv", "v": 0, "m": "", "sv": sub})
             else:
                 binds.append({"n": names[0], "k": "opq", "v": 0, "m": _tok_text(vn, b)})
         elif c.type == "inherit":
@@ -489,6 +493,12 @@ def _binds_of(nodes, b) -> tuple[list[dict], object, object]:
                 if x.type == "inherited_attrs":
                     for y in x.named_children:
                         binds.append({"n": _text(y, b), "k": "inh", "v": 0, "m": ""})
+        elif c.type == "inherit_from":
+            src = next((x for x in c.named_children if x.type not in ("inherited_attrs", "comment")), None)
+            for x in c.named_children:
+                if x.type == "inherited_attrs":
+                    for y in x.named_children:
+                        binds.append({"n": _text(y, b), "k": "inhfrom", "v": 0, "m": _text(src, b) if src is not None else ""})
     return binds, knode, xnode
 
 
@@ -499,6 +509,23 @@ def chain_of(text: str | bytes) -> dict | None:
     node = next((c for c in root.children if c.type != "comment"), None)
     frames: list[dict] = []
     x = None
+    if node is not None and node.type == "apply_expression":
+        fn, _ = _strip_paren(node.child_by_field_name("function"))
+        arg, _ = _strip_paren(node.child_by_field_name("argument"))
+        if fn.type == "function_expression" and arg.type == "attrset_expression":
+            fm = next((c for c in fn.children if c.type == "formals"), None)
+            abs_ = next((c for c in arg.children if c.type == "binding_set"), None)
+            argb, _, _ = _binds_of(abs_.children if abs_ else [], b)
+            supplied = {q["n"]: q["v"] for q in argb if q["k"] == "lit"}
+            binds = []
+            for f in (fm.children if fm is not None else []):
+                if f.type == "formal":
+                    nm = _text(f.child_by_field_name("name") or f.named_children[0], b)
+                    d = f.child_by_field_name("default")
+                    binds.append({"n": nm, "k": "formal", "v": int(_text(d, b)) if d is not None and d.type == "integer_expression" else 0,
+                                  "m": "", "arg": supplied.get(nm, 0)})
+            frames.append({"kind": "formals", "binds": binds})
+            node = fn.child_by_field_name("body")
     while node is not None:
         t = node.type
         if t == "let_expression":
